@@ -470,11 +470,14 @@ def size (g : Grid α) (dim : Nat) : Nat := if dim = 0 then g.rows.length else g
 /-- pick the listed positions from a list (Python `[xs[p] for p in ps]`). -/
 def pick (xs : List β) (ps : List Nat) : List β := ps.flatMap fun p => (xs[p]?).toList
 
+/-- keep the listed positions along `dim` (rows for `dim = 0`, otherwise columns of every row). -/
+def pickDim (g : Grid α) (ps : List Nat) (dim : Nat) : Grid α :=
+  if dim = 0 then { g with rows := pick g.rows ps }
+  else { numCols := ps.length, rows := g.rows.map fun row => pick row ps }
+
 /-- the selection `ix` along `dim` on nested lists, by Python-list semantics. -/
 def select (g : Grid α) (ix : Index) (dim : Nat) : Option (Grid α) :=
-  (ix.positions (g.size dim)).map fun ps =>
-    if dim = 0 then { g with rows := pick g.rows ps }
-    else { numCols := ps.length, rows := g.rows.map fun row => pick row ps }
+  (ix.positions (g.size dim)).map fun ps => g.pickDim ps dim
 
 def catRows (gs : List (Grid α)) : Option (Grid α) :=
   match gs with
@@ -515,5 +518,27 @@ def MET.grid (m : MET α) : Grid α :=
 def MET.ofGrid (g : Grid α) (widths : List Nat) : MET α :=
   { numRows := g.rows.length, numCols := g.numCols, width := widths.sum
     values := g.rows.map List.flatten, offset := 0 :: cumsum widths }
+
+/-- specification of a `MultiEmbeddingTensor`: a grid plus the fixed width of every column
+    (kept separately so that a zero-row tensor still has column widths). -/
+structure WGrid (α : Type) where
+  grid : Grid α
+  widths : List Nat
+deriving Repr, DecidableEq
+
+namespace WGrid
+variable {α : Type}
+
+def WF (w : WGrid α) : Prop :=
+  w.grid.numCols = w.widths.length ∧ ∀ row ∈ w.grid.rows, row.map List.length = w.widths
+
+/-- nested-list selection; along columns the widths are selected alongside. -/
+def select (w : WGrid α) (ix : Index) (dim : Nat) : Option (WGrid α) :=
+  (ix.positions (w.grid.size dim)).map fun ps =>
+    { grid := w.grid.pickDim ps dim, widths := if dim = 0 then w.widths else Grid.pick w.widths ps }
+
+end WGrid
+
+def MET.ofW (w : WGrid α) : MET α := MET.ofGrid w.grid w.widths
 
 end TFVerif
